@@ -87,8 +87,17 @@ EvalClauses(e) ==
 (***************************************************************************)
 SolIn(e, s) == [ot |-> s.ot, st |-> s.st, lm |-> s.lm, c |-> e.in.c, syn |-> s.syn, root |-> e.in.root]
 SolOf2(s) == [m |-> s.m, lab |-> s.lab]
-EvRefMin == [i \in DOMAIN Log |-> IF Log[i].op = "poly" /\ Log[i].exc = ""
-                                   THEN SetMin({OrdExpected(Log[i].refs[r], Info(Log[i].refs[r].st), Info(Log[i].refs[r].ot), FALSE).min : r \in DOMAIN Log[i].refs}) ELSE 0]
+\* (constant-level tables per event and refinement pair, see the note above)
+EvRefs == [i \in DOMAIN Log |-> IF Log[i].op = "poly" /\ Log[i].exc = "" THEN Log[i].refs ELSE <<>>]
+EvRI == [i \in DOMAIN Log |-> [r \in DOMAIN EvRefs[i] |-> Info(EvRefs[i][r].st)]]
+EvROI == [i \in DOMAIN Log |-> [r \in DOMAIN EvRefs[i] |-> Info(EvRefs[i][r].ot)]]
+EvRLca == [i \in DOMAIN Log |-> [r \in DOMAIN EvRefs[i] |->
+             LcaMap(EvRefs[i][r].ot, EvROI[i][r], EvRI[i][r], EvRefs[i][r].lm)]]
+EvROrd == [i \in DOMAIN Log |-> [r \in DOMAIN EvRefs[i] |-> RootOrders(EvRefs[i][r])]]
+EvRTab == [i \in DOMAIN Log |-> [r \in DOMAIN EvRefs[i] |-> [p \in EvROrd[i][r] |->
+             OrdTable(EvRefs[i][r], EvRI[i][r], EvROI[i][r], EvRLca[i][r], FALSE, p)]]]
+EvRefMin == [i \in DOMAIN Log |->
+               SetMin({SetMin({OrdRootMin(EvRTab[i][r][p]) : p \in EvROrd[i][r]}) : r \in DOMAIN EvRefs[i]})]
 PolyClauses(e, i) ==
   IF e.exc # "" THEN {"ClauseNoFailure"} ELSE
   LET sols == e.sols
